@@ -212,16 +212,23 @@ def accepted_values():
     return depths, mups, dropped
 
 
+NO_MUP_TEMPLATES = ('manifest_b', 'manifest_ef', 'manifest_vod_aiv')
+
+
 def http_conformance(arg):
     """Rendered manifests carry the values the pure driver computes."""
-    start, depth, mup = arg
+    start, depth, mup = arg[:3]
+    template = arg[3] if len(arg) > 3 else 'hand_made'
+    only_now = arg[4] if len(arg) > 4 else None
     from dashlive.mpeg.dash.timing import DashTiming
     w = W.World.shared()
     w.begin_item()
     acc = core.Acc()
     with w.appctx():
         sref = w.models.Stream.get(directory='bbb').timing_reference
-    for now in instants('quick')[::17]:
+    for now in (instants('quick')[::17] if template == 'hand_made' else instants('quick')[5::51]):
+        if only_now is not None and now.isoformat() != only_now:
+            continue
         W.set_now(now)
         s = start if start in SYMBOLIC else fmt_start(now - TD(seconds=61), start)
         q = {'start': s}
@@ -229,7 +236,7 @@ def http_conformance(arg):
             q['depth'] = depth
         if mup is not None:
             q['mup'] = mup
-        url = '/dash/live/bbb/hand_made.mpd' + crawl.make_query(q)
+        url = f'/dash/live/bbb/{template}.mpd' + crawl.make_query(q)
         r = w.get(url)
         acc.count('evaluations')
         acc.count('transitions')
@@ -238,13 +245,17 @@ def http_conformance(arg):
             continue
         acc.count('traces')
         doc = mpd.Mpd(r.body, 'http://localhost' + url.split('?')[0])
-        t = DashTiming(W.get_now(), sref, make_options(s, depth, mup))
-        rec = {'kind': 'http', 'now': now.isoformat(), 'url': url}
+        # (a template without the attribute does not take the option either)
+        t = DashTiming(W.get_now(), sref, make_options(s, depth, None if template in NO_MUP_TEMPLATES else mup))
+        rec = {'kind': 'http', 'now': now.isoformat(), 'url': url, 'arg': [start, depth, mup, template]}
         want = (t.availabilityStartTime, t.publishTime, t.timeShiftBufferDepth, t.minimumUpdatePeriod)
         got = (doc.ast, doc.publish_time, None if doc.tsbd is None else int(doc.tsbd),
                None if doc.mup is None else int(doc.mup))
+        if template in NO_MUP_TEMPLATES and got[3] is None:
+            # these templates have no minimumUpdatePeriod attribute at all; the statement's mup clause is conditional
+            want = want[:3] + (None,)
         if got != want:
-            acc.violation(sig('http-differs-from-pure'), f'{url} at {now.isoformat()}: manifest says {got}, DashTiming {want}', rec)
+            acc.violation(sig('http-differs-from-pure', template), f'{url} at {now.isoformat()}: manifest says {got}, DashTiming {want}', rec)
         acc.state(('http', url, now.isoformat()))
     return acc
 
@@ -266,7 +277,9 @@ def run(ctx):
         for d in it[3]:
             split.append((it[0], it[1], it[2], [d], it[4]))
     ctx.merge_all(ctx.pmap(work, split))
-    conf = [(s, d, m) for s in ('epoch', 'today', 'now', 'Z', '+01:00') for d in (None, '30') for m in (None, '4', '-1')]
+    from props import c05
+    conf = [(s, d, m, t) for s in ('epoch', 'today', 'now', 'Z', '+01:00') for d in (None, '30') for m in (None, '4', '-1')
+            for t in c05.TEMPLATES]
     ctx.merge_all(ctx.pmap(http_conformance, conf))
     ctx.acc.counts['traces'] += ctx.acc.counts['evaluations']
     ctx.extra.update(instants=len(instants(ctx.tier)), days=len(days(ctx.tier)), depths=depths, mups=mups,
@@ -278,7 +291,10 @@ def run(ctx):
 def replay(record):
     acc = core.Acc()
     if record.get('kind') == 'http':
-        return []
+        if 'arg' not in record:
+            return []
+        a = http_conformance(tuple(record['arg']) + (record['now'],))
+        return [(s_, v[0]['what']) for s_, v in a.viol.items()]
     from dashlive.mpeg.dash.timing import DashTiming
     from dashlive.mpeg.dash.reference import StreamTimingReference
     ref = tuple(record['ref'])
